@@ -12,6 +12,10 @@ import (
 	"mellium.im/xmpp/verifharness/core"
 )
 
+// wrapIndex is the case that feeds the receiving side 65 541 packets from the
+// raw speaker.  It is early so that it runs alongside everything else.
+const wrapIndex = 3
+
 // kindOf maps a case index to the part of the workload it runs.
 func kindOf(i int) string {
 	switch i % 10 {
@@ -35,6 +39,11 @@ func run(c *core.Case) {
 	}
 	if c.Tier == "thorough" && c.Index == 0 {
 		runWrap(c)
+		return
+	}
+	if c.Index == wrapIndex {
+		// in every tier: the receiver's sequence counter passes 65535 → 0
+		runRawWrap(c)
 		return
 	}
 	switch kindOf(c.Index) {
@@ -73,7 +82,7 @@ func Prop() *core.Prop {
 		Race:  true,
 		Rule: "case i runs one of: (transfer, 6/10) two real sessions joined by bufconn.Pipe, each serving a mux with ibb.Handle; 1-2 streams opened from either end with block size in {1,2,3,4,5,63,64,4095,4096,65535,default}, IQ or message carrier, payload lengths around multiples of the block size, of 3 and of 768/1024, PRNG partitions into Write/Flush, both directions at once, PRNG reader buffer sizes and start delays, transport read chunking and write yields; either side closes; " +
 			"(raw-recv, 2/10) the library accepts a stream from a raw XEP-0047 speaker that interleaves valid data with packets for unknown/closed sids, out-of-sequence numbers, undecodable base64 and packets exceeding SetReadBuffer; (raw-send, 1/10) the library opens towards the raw speaker, which refuses or accepts and then acts as an independent receiver; " +
-			"(forced, 1/10) scenarios I1-I3 park the reader at ibb.read.wait or the handler at ibb.data.notify with the controller. Thorough case 0 sends 65 537+ packets on one stream. Oracle: byte equality per direction, consecutive seq on a wire tap, EOF placement, error condition per injected packet, stall rule for parked readers, race detector. distinct = distinct (shape, outcome) signatures.",
+			"(raw-wrap, case 3 of every tier) the raw speaker sends 65 541 one-byte packets numbered 0…65535,0…4 in batches without waiting (message carrier: no refusal stanza may come back; IQ carrier: every packet acknowledged), a reader drains, bytes must be equal; (forced, 1/10) scenarios I1-I3 park the reader at ibb.read.wait or the handler at ibb.data.notify with the controller. Thorough case 0 sends 65 537+ packets on one stream. Oracle: byte equality per direction, consecutive seq on a wire tap, EOF placement, error condition per injected packet, stall rule for parked readers, race detector. distinct = distinct (shape, outcome) signatures.",
 		Assumptions: []string{
 			"bufconn.Pipe is a faithful reliable ordered transport",
 			"the closing side's reader is only required to deliver a prefix of what the other side wrote; the non-closing side's last 0-2 bytes (incomplete base64 group) may legitimately wait for its own close",
@@ -93,7 +102,7 @@ func Prop() *core.Prop {
 			"transfers", "carrier_iq", "carrier_message", "dir_opener_to_acceptor", "dir_acceptor_to_opener", "bidirectional",
 			"eof_after_close", "data_packets_on_wire", "concurrent_stream_cases",
 			"inject_unknown_sid", "inject_closed_sid", "inject_bad_seq", "inject_bad_base64", "inject_oversize",
-			"refused_opens", "raw_receiver_transfers",
+			"refused_opens", "raw_receiver_transfers", "raw_wrap_runs",
 			"forced_I1_reached", "forced_I2_reached", "forced_I3_reached",
 		},
 	}
